@@ -1172,8 +1172,8 @@ LEVEL_TEXT = (LEVEL_TEXT +
               "computed from s.lines().last(); every expect / unreachable! visible) is proved to compute a specification in "
               "pieces whenever every node has a bin name, so no panic site is reachable after build; generate() writes a module "
               "for EVERY command tree, deterministically; for EVERY path of names or visible aliases, at every depth, the module "
-              "contains the block of the addressed command -- one export extern per subcommand path, declared under the bin path "
-              "of the NAMES -- with a line for every short and long spelling the accessors return (class aliases_have_primary: "
+              "contains the block of the addressed command -- the module consists of EXACTLY one export extern block per command, in "
+              "pre-order, declared under the bin path of the NAMES -- with a line for every short and long spelling the accessors return (class aliases_have_primary: "
               "every short, long and visible alias), a line for every positional, and the nu-complete definition with every "
               "possible value (hidden ones included) referenced from the argument's lines.  The two recorded findings "
               "(option aliases without primary, subcommand aliases) are proved class boundaries with replayed witnesses.  The "
@@ -1182,5 +1182,5 @@ LEVEL_NOTE = LEVEL_NOTE.replace("Partial: zsh/fish/nushell have no generator mod
                                 "Partial: zsh has no generator model (token oracle only); fish, PowerShell, elvish and nushell have "
                                 "byte-exact generator models with theorems but are not installed (what the shell does with the script "
                                 "is not modelled); for nushell `build => linked` is a hypothesis of the theorem that names the declared "
-                                "path, and uniqueness of a block's name is not stated")
+                                "path, and that two commands never share a declared name is not stated (exactly one block per command is)")
 # ---- end nushell generator model ----
